@@ -261,6 +261,62 @@ def wire_async():
     return vloop.run_virtual(body)
 
 
+def search_retry_numbers(ctx):
+    """requests that are NOT answered (their retry path runs) with partial-update acknowledgements in between, on one connection:
+    whatever the connection's counter hands out - to first transmissions, retransmissions and acknowledgements alike - is, per kind,
+    the successor of what it handed out before"""
+    from geckolib.async_spa import GeckoAsyncSpa
+    from geckolib.async_tasks import AsyncTasks
+    from geckolib.driver.async_udp_protocol import GeckoAsyncUdpProtocol
+    from geckolib.driver.protocol.statusblock import GeckoAsyncPartialStatusBlockProtocolHandler
+    out = {}
+
+    async def body(loop):
+        async def ev(*a, **k):
+            pass
+        spa = GeckoAsyncSpa(b"IOSclient", _Desc(), AsyncTasks(), ev)
+        proto = GeckoAsyncUdpProtocol(None, _Desc.destination)
+        tr = vloop.FakeTransport(loop, proto)
+        proto.connection_made(tr)
+        spa._protocol = proto
+        spa._is_connected = True
+        spa._last_ping = loop.time()
+        spa.pack_type, spa.config_version, spa.log_version = 6, 1, 2
+        handed = _tap(proto)
+        h = GeckoAsyncPartialStatusBlockProtocolHandler(proto)
+        sender = ("10.0.0.1", 10022, _Desc.identifier, b"IOSclient")
+
+        async def chatter():
+            for _ in range(12):
+                await asyncio.sleep(2.3)
+                await h.async_handle(b"STATP\x01\x00\x10\x01\x02", sender)
+        ct = asyncio.ensure_future(chatter())
+        # nobody answers: every request below runs its whole retry path (3 attempts each)
+        await proto.get(lambda: spa._get_version_handler_func(), None, 3)
+        await proto.get(lambda: spa._get_watercare_handler_func(), None, 2)
+        t = asyncio.ensure_future(spa._on_async_set_value(10, 2, 500))
+        await asyncio.sleep(14)
+        t.cancel()
+        ct.cancel()
+        out["handed"] = list(handed)
+        out["wire"] = [_seq_byte(d[1]) for d in tr.sent if b"<DATAS>" in d[1]]
+    try:
+        vloop.run_virtual(body)
+    except Exception as e:  # noqa
+        ctx.violation("retry-numbers:raised", {"kind": "retry-numbers"}, "the scenario runs", f"{type(e).__name__}: {e}")
+        return
+    ctx.count("evaluations", len(out["handed"]))
+    ctx.cov["retry_scenario_numbers_handed_out"] = len(out["handed"])
+    for kind, lo, n in ((False, 1, 191), (True, 192, 64)):
+        vs = [v for (c, v) in out["handed"] if c == kind]
+        for a, b in zip(vs, vs[1:]):
+            if b != lo + (a - lo + 1) % n:
+                ctx.violation(f"retry-numbers:not-successor:{'command' if kind else 'protocol'}", {"kind": "retry-numbers"},
+                              "each number handed out is the successor of the previous one of its kind (unanswered requests retried, acknowledgements in between)",
+                              {"handed_out_in_order": vs[:14], "wire": out["wire"][:14]})
+                break
+
+
 def search_wire(ctx):
     rows = []
     try:
@@ -428,7 +484,7 @@ def search_thread_schedules(ctx):
 
 
 def run(ctx):
-    st = translate.run(["SeqCounter"])
+    st = translate.run(["SeqCounter", "Skeletons"])
     ctx.cov["translator"] = st
     if st["SeqCounter"] != "ok":
         ctx.obligation_broken("translate:SeqCounter", st["SeqCounter"])
@@ -439,6 +495,7 @@ def run(ctx):
         correspondence(ctx, seqs)
     search_counters(ctx, seqs)
     search_wire(ctx)
+    search_retry_numbers(ctx)
     search_thread_schedules(ctx)
     if not ctx.quick:
         search_threads(ctx)
@@ -453,6 +510,9 @@ def run(ctx):
 def replay(inp):
     from common import Ctx
     ctx = Ctx("C16", "quick", 0)
+    if inp.get("kind") == "retry-numbers":
+        search_retry_numbers(ctx)
+        return bool(ctx.violations), ctx.violations[0]["observed"] if ctx.violations else "successors"
     if inp.get("kind") == "wire":
         search_wire(ctx)
         v = [x for x in ctx.violations if x["input"].get("site") == inp.get("site")]
